@@ -59,7 +59,9 @@ def input_contexts(m, rng, invocable):
 
     names = [(i["name"], i["type"]) for i in m["inputs"]]
     if invocable in svc:
-        names = names + [(x, "number") for x in svc[invocable]["input_decisions"]]
+        # a value supplied for an input decision is of the type of that decision's variable (untyped: a number)
+        dtype = {d["name"]: d.get("type_ref") or "number" for d in m["decisions"]}
+        names = names + [(x, dtype.get(x, "number")) for x in svc[invocable]["input_decisions"]]
     if invocable in bkm:
         names = [(p, "number") for p in bkm[invocable]["params"]]
     for k in range(4):
@@ -90,7 +92,7 @@ def run(rep, tier, seed):
         "input entries carrying the name of a required decision or knowledge model are not generated (the statement's irrelevance clause is about names outside the closure)",
     ]
     rng = rng_for(seed, "c04")
-    shapes = ["plain", "diamond", "bkm-chain", "service", "service-and-direct", "multi-output-service", "function", "mixed"]
+    shapes = ["plain", "diamond", "bkm-chain", "service", "service-and-direct", "multi-output-service", "function", "mixed", "typed-service"]
     models = []
     for k in range(n_models):
         g = gdrg.G(rng)
